@@ -6,6 +6,8 @@
 //! result is `[0..=i]`, computed natively; a second oracle run uses 2x2 integer matrices (non-commutative).
 //! Stream T (strategy level, model + oracle): concrete body families inlined+evaluated by the code vs
 //! iterAssoc / iterOneBit / iterSmall of the model.
+//! Stream TB (batched states): `batched` below — iterSmallB / iterOneBitB (array-level model of exponential_inliner.rs).
+//! Stream F (fresh randomness, node structure): c07_fresh.rs.
 //! Stream E (end-to-end, oracle only): module `e2e` below.
 use crate::util::*;
 use ciphercore_base::data_types::{array_type, scalar_type, tuple_type, vector_type, Type, BIT, UINT64};
@@ -450,17 +452,258 @@ fn strategies(run: &mut Run) {
     let _ = tuple_type(vec![]);
 }
 
+// ---------------------------------------------------------------------------------------------
+// Stream TB (strategy level, batched states, model + oracle): the state is a BIT array of shape
+// B ++ [K] (small state) or of any shape (one-bit state); every batch row / position gets its own
+// input bit per step (the input element is a BIT array of shape B), so a layout mix-up between rows
+// or axes changes the result.  The Lean model runs iterSmallB / iterOneBitB (array-level model of
+// exponential_inliner.rs); the native oracle is the row-wise reference loop.
+fn show_bits(b: &[u64]) -> String {
+    if b.is_empty() {
+        "-".to_owned()
+    } else {
+        b.iter().map(|x| x.to_string()).collect::<Vec<_>>().join(".")
+    }
+}
+
+fn show_dims(b: &[u64]) -> String {
+    if b.is_empty() {
+        "_".to_owned()
+    } else {
+        b.iter().map(|x| x.to_string()).collect::<Vec<_>>().join(".")
+    }
+}
+
+fn bit_type(shape: &[u64]) -> Type {
+    if shape.is_empty() {
+        scalar_type(BIT)
+    } else {
+        array_type(shape.to_vec(), BIT)
+    }
+}
+
+fn batched(run: &mut Run) {
+    let batch_shapes: Vec<Vec<u64>> = vec![vec![], vec![1], vec![2], vec![3], vec![2, 1], vec![1, 2], vec![2, 2], vec![3, 2], vec![2, 3], vec![2, 1, 2]];
+    // ---- small state, shape B ++ [K]
+    let mut rng = run.rng("TB-small");
+    for it in 0..run.tier.scale(70, 400) {
+        let k = 1 + (it % 3) as u64 + if it % 17 == 16 { 1 } else { 0 };
+        let b = batch_shapes[(it / 3) % batch_shapes.len()].clone();
+        let rows: u64 = b.iter().product();
+        let max_n = match k {
+            1 => 7,
+            2 => 6,
+            3 => 4,
+            _ => 3,
+        };
+        let n = if it % 11 == 10 { rng.below(2) } else { 2 + rng.below(max_n - 1) } as usize;
+        let level = if rng.chance(1, 2) { 'd' } else { 'e' };
+        let empty_out = rng.chance(1, 3);
+        let fam = rng.below(2);
+        let m = (1u64 << k) - 1;
+        let s_rows: Vec<u64> = (0..rows).map(|_| rng.below(1 << k)).collect();
+        let s_bits: Vec<u64> = s_rows.iter().flat_map(|v| (0..k).map(move |i| (v >> i) & 1)).collect();
+        // one input per step: bit r = input of row r
+        let xs: Vec<u64> = (0..n).map(|_| rng.below(1 << rows)).collect();
+        let req = format!("smallb {} {} {} {} {} {} {}", level, empty_out as u8, k, show_dims(&b), fam, show_list(&s_bits), show_list(&xs));
+        run.count(&format!("TB:small:{}:K{}:rank{}:fam{}", level, k, b.len(), fam));
+        let mut shape = b.clone();
+        shape.push(k);
+        let tk = array_type(shape.clone(), BIT);
+        let tin = bit_type(&b);
+        let r = catch(|| -> Result<(Vec<u64>, Vec<Vec<u64>>)> {
+            let rank = b.len();
+            let c = iterate_context(
+                tk.clone(),
+                tin.clone(),
+                n as u64,
+                |g, st, inp| {
+                    let bits: Vec<Node> = (0..k)
+                        .map(|i| st.get_slice(vec![SliceElement::Ellipsis, SliceElement::SingleIndex(i as i64)]))
+                        .collect::<Result<Vec<_>>>()?;
+                    let mut new_bits = vec![];
+                    if fam == 0 {
+                        let mut carry = inp.clone();
+                        for bt in &bits {
+                            new_bits.push(bt.add(carry.clone())?);
+                            carry = bt.multiply(carry)?;
+                        }
+                    } else {
+                        let notx = inp.add(g.ones(scalar_type(BIT))?)?;
+                        for i in 0..k as usize {
+                            let prev = bits[(i + k as usize - 1) % k as usize].clone();
+                            new_bits.push(inp.add(notx.multiply(prev)?)?);
+                        }
+                    }
+                    // [K] ++ B  ->  B ++ [K]
+                    let stacked = g.create_vector(tin.clone(), new_bits)?.vector_to_array()?;
+                    let new_state = if rank == 0 {
+                        stacked
+                    } else {
+                        let mut perm: Vec<u64> = (1..=rank as u64).collect();
+                        perm.push(0);
+                        stacked.permute_axes(perm)?
+                    };
+                    let out = if empty_out { g.create_tuple(vec![])? } else { st.clone() };
+                    Ok((new_state, out))
+                },
+                GraphAnnotation::SmallState,
+            )?;
+            let inputs = vec![
+                Value::from_flattened_array(&s_bits, BIT)?,
+                Value::from_vector(
+                    xs.iter()
+                        .map(|x| {
+                            let bits: Vec<u64> = (0..rows).map(|r| (x >> r) & 1).collect();
+                            if b.is_empty() {
+                                Value::from_scalar(bits[0], BIT)
+                            } else {
+                                Value::from_flattened_array(&bits, BIT)
+                            }
+                        })
+                        .collect::<Result<Vec<_>>>()?,
+                ),
+            ];
+            let (fin, outs) = inline_and_run(&c, level, inputs)?;
+            let outs = if empty_out { vec![] } else { outs.iter().map(|o| o.to_flattened_array_u64(tk.clone())).collect::<Result<Vec<_>>>()? };
+            Ok((fin.to_flattened_array_u64(tk.clone())?, outs))
+        });
+        let nontrivial = n >= 2 && rows >= 2;
+        match r {
+            Err(p) => run.oracle_fail("C07:panic:strategy:smallb", format!("{} panicked: {}", req, p)),
+            Ok(Err(e)) => {
+                run.case(req.clone(), "ERR".into(), nontrivial);
+                run.oracle_fail("C07:strategy:err:smallb", format!("{} returned Err {:?}", req, e));
+            }
+            Ok(Ok((fin, outs))) => {
+                run.case(req.clone(), format!("{}|{}", show_bits(&fin), show_outs(empty_out, n, outs.iter().map(|o| show_bits(o)).collect())), nontrivial);
+                run.oracle_case(&req, nontrivial);
+                let mut st = s_rows.clone();
+                let mut want: Vec<Vec<u64>> = vec![];
+                let to_bits = |st: &[u64]| -> Vec<u64> { st.iter().flat_map(|v| (0..k).map(move |i| (v >> i) & 1)).collect() };
+                for &x in &xs {
+                    want.push(to_bits(&st));
+                    for (r, v) in st.iter_mut().enumerate() {
+                        let xr = (x >> r) & 1;
+                        *v = if fam == 0 {
+                            (*v + xr) & m
+                        } else if xr == 1 {
+                            m
+                        } else {
+                            ((*v << 1) & m) | (*v >> (k - 1))
+                        };
+                    }
+                }
+                if fin != to_bits(&st) || (!empty_out && outs != want) {
+                    run.oracle_fail(&format!("C07:strategy:smallb:{}", level), format!("{} gives {:?} {:?}, row-wise reference loop {:?} {:?}", req, fin, outs, to_bits(&st), want));
+                }
+            }
+        }
+    }
+    // ---- one-bit state of any shape: new = a·s·x + b·s + c·x + d elementwise, output s + x | ()
+    let mut rng = run.rng("TB-onebit");
+    for it in 0..run.tier.scale(50, 300) {
+        let sh = batch_shapes[it % batch_shapes.len()].clone();
+        let cells: u64 = sh.iter().product();
+        let n = if it % 9 == 8 { rng.below(2) as usize } else { 2 + rng.below(if it % 5 == 0 { 18 } else { 6 }) as usize };
+        let level = if rng.chance(1, 2) { 'd' } else { 'e' };
+        let empty_out = rng.chance(1, 3);
+        let tt = if it < 32 { (it % 16) as u64 } else { rng.below(16) };
+        let s_bits: Vec<u64> = (0..cells).map(|_| rng.below(2)).collect();
+        let xs: Vec<u64> = (0..n).map(|_| rng.below(1 << cells)).collect();
+        let dims: Vec<u64> = if sh.is_empty() { vec![1] } else { sh.clone() };
+        let req = format!("onebitb {} {} {} {} {} {}", level, empty_out as u8, show_dims(&dims), tt, show_list(&s_bits), show_list(&xs));
+        run.count(&format!("TB:onebit:{}:rank{}", level, sh.len()));
+        let t = bit_type(&sh);
+        let val = |bits: &[u64]| -> Result<Value> {
+            if sh.is_empty() {
+                Value::from_scalar(bits[0], BIT)
+            } else {
+                Value::from_flattened_array(bits, BIT)
+            }
+        };
+        let r = catch(|| -> Result<(Vec<u64>, Vec<Vec<u64>>)> {
+            let c = iterate_context(
+                t.clone(),
+                t.clone(),
+                n as u64,
+                |g, st, inp| {
+                    // constant term broadcast to the state shape through the state (st + st = 0)
+                    let zero = st.add(st.clone())?;
+                    let mut acc = if tt & 1 == 1 { zero.add(g.ones(scalar_type(BIT))?)? } else { zero };
+                    if tt & 8 != 0 {
+                        acc = acc.add(st.multiply(inp.clone())?)?;
+                    }
+                    if tt & 4 != 0 {
+                        acc = acc.add(st.clone())?;
+                    }
+                    if tt & 2 != 0 {
+                        acc = acc.add(inp.clone())?;
+                    }
+                    let out = if empty_out { g.create_tuple(vec![])? } else { st.add(inp)? };
+                    Ok((acc, out))
+                },
+                GraphAnnotation::OneBitState,
+            )?;
+            let inputs = vec![
+                val(&s_bits)?,
+                Value::from_vector(xs.iter().map(|x| val(&(0..cells).map(|r| (x >> r) & 1).collect::<Vec<u64>>())).collect::<Result<Vec<_>>>()?),
+            ];
+            let (fin, outs) = inline_and_run(&c, level, inputs)?;
+            let flat = |v: &Value| -> Result<Vec<u64>> {
+                if sh.is_empty() {
+                    Ok(vec![v.to_u64(BIT)?])
+                } else {
+                    v.to_flattened_array_u64(t.clone())
+                }
+            };
+            let outs = if empty_out { vec![] } else { outs.iter().map(|o| flat(o)).collect::<Result<Vec<_>>>()? };
+            Ok((flat(&fin)?, outs))
+        });
+        let nontrivial = n >= 2 && cells >= 2;
+        match r {
+            Err(p) => run.oracle_fail("C07:panic:strategy:onebitb", format!("{} panicked: {}", req, p)),
+            Ok(Err(e)) => {
+                run.case(req.clone(), "ERR".into(), nontrivial);
+                run.oracle_fail("C07:strategy:err:onebitb", format!("{} returned Err {:?}", req, e));
+            }
+            Ok(Ok((fin, outs))) => {
+                run.case(req.clone(), format!("{}|{}", show_bits(&fin), show_outs(empty_out, n, outs.iter().map(|o| show_bits(o)).collect())), nontrivial);
+                run.oracle_case(&req, nontrivial);
+                let mut st = s_bits.clone();
+                let mut want: Vec<Vec<u64>> = vec![];
+                for &x in &xs {
+                    want.push(st.iter().enumerate().map(|(r, v)| v ^ ((x >> r) & 1)).collect());
+                    for (r, v) in st.iter_mut().enumerate() {
+                        let xr = (x >> r) & 1;
+                        *v = (((tt >> 3) & *v & xr) ^ ((tt >> 2) & *v) ^ ((tt >> 1) & xr) ^ tt) & 1;
+                    }
+                }
+                if fin != st || (!empty_out && outs != want) {
+                    run.oracle_fail(&format!("C07:strategy:onebitb:{}", level), format!("{} gives {:?} {:?}, elementwise reference loop {:?} {:?}", req, fin, outs, st, want));
+                }
+            }
+        }
+    }
+}
+
 pub fn corr(run: &mut Run) {
     run.rule = "stream S: for every n in 0..=64 (thorough 0..=200) the three prefix-sum functions, both picked \
                 variants (Default/Extreme) and log_depth_sum run through the verif hook on the free monoid over n \
                 generators (combine = concatenation, calls recorded): results and call trace must equal the Lean \
                 model's; natively checked against prefix i = [0..=i] and against 2x2 matrix products over Z/2^64. \
+                Stream TB: batched small / one-bit states (BIT[B++[K]], K=1..4, batch rank 0..3, every row has its own input bit per step) \
+                inlined+evaluated by the code vs the array-level Lean model iterSmallB / iterOneBitB and a row-wise native loop \
+                (non-trivial: >=2 steps and >=2 rows). Stream F: bodies with Random nodes, exact node structure of the inlined \
+                graph vs the Lean structure model, Random sets of different copies disjoint. \
                 Stream E: generated contexts with nested Call/Iterate of every state kind, evaluated natively vs \
                 after inline_operations in every mode (see notes). Non-trivial: n >= 2; distinct by request text."
         .to_owned();
     structural(run);
     strategies(run);
+    batched(run);
     e2e::e2e(run);
+    crate::c07_fresh::fresh(run);
 }
 
 // ---------------------------------------------------------------------------------------------
